@@ -299,10 +299,16 @@ __gmp_doprnt_mpf (const struct doprnt_funs_t *funs,
   if (p->showtrailing)
     {
       /* Pad to requested precision with trailing zeros, for general this is
-         all digits, for fixed and scientific just the fraction.  */
-      preczeros = prec - (fraczeros + fraclen
-                          + (p->conv == DOPRNT_CONV_GENERAL
-                             ? intlen + intzeros : 0));
+         all significant digits, for fixed and scientific just the fraction.
+         In the general style a value below 1 printed as 0.000ddd has only
+         the ddd as significant digits (the "0" before the point and the
+         fraczeros after it are not), and a zero counts its "0".  */
+      if (p->conv == DOPRNT_CONV_GENERAL)
+        preczeros = prec - (len == 0 ? 1
+                            : explen != 0 || exp <= 0 ? intlen + fraclen
+                            : intlen + intzeros + fraclen);
+      else
+        preczeros = prec - (fraczeros + fraclen);
       preczeros = MAX (0, preczeros);
     }
   else
